@@ -31,7 +31,7 @@ CLAIMED = {
    technique=T, ref="4/C07"),
  "C08": dict(
    text="Proof (partial): Append and Seal are proved to write nothing that existed before the call (strict frame: every store, map update, in-place append and callee effect is an obligation against 'modifies nothing'), SymbolTable.Clone is proved to own a fresh backing array, and the new token's envelope is proved to carry the parent's signed blocks unchanged.",
-   note="Also proved: CreateBlock hands the block builder a private clone of the symbol table, block-builder methods write only builder-owned memory, Build returns a block that shares no array with the builder, GetBlockID and Serialize write nothing, Authorize writes only the authorizer. Not decided: printing functions are proved read-only but String/Code of a token are not yet under contract.",
+   note="Also proved: CreateBlock hands the block builder a private clone of the symbol table, block-builder methods write only builder-owned memory, Build returns a block that shares no array with the builder, GetBlockID and Serialize write nothing, Authorize writes only the authorizer. Printing (Biscuit.String/Code, Block.String/Code and the datalog debugger) is proved read-only.",
    technique=T, ref="4/C08"),
  "C09": dict(
    text="Proof (partial): Seal is proved to keep the envelope (same authority block and signed blocks, same root key id), to copy block contents and symbols unchanged, to replace the proof by a signature of exactly the seal payload of the last block under the held next secret (so the closing proof verifies whenever the parent's did: seal_verifies), and both Seal and Append are proved to refuse a token without a next secret (sealed) with an error and no token. The lemma same_envelope_same_chain (proved from the definitions) turns 'same envelope' into 'the chain verifies under the same root key'; with authorizerFor's accept <=> chain-and-proof contract the sealed token is accepted exactly when its parent was.",
@@ -39,7 +39,7 @@ CLAIMED = {
    technique=T, ref="4/C09"),
  "C10": dict(
    text="Proof: a panic-freedom sweep over every function under contract (about 230 functions: datalog engine incl. its goroutines, expressions, symbol table, printing, converters both directions, Unmarshal, token construction/Append/Seal, builders, authorizer incl. Authorize/Query/LoadPolicies/SerializePolicies, parser conversion layer): each nil dereference, index, slice bound, type assertion, division, unhashable map key, nil map write, explicit panic and panicking library precondition (ed25519 key/seed lengths) is an obligation proved under the invariants that decoding and the builders establish (wfToken, blockWF, termWF...).",
-   note="Not covered: Biscuit.String/Code, Block.String/Code, experiments package, the MustParser wrappers (they panic by design). Out-of-memory and stack depth are not panics a contract can see. Dependencies are trusted to satisfy their assumed contracts.",
+   note="Not covered: experiments package, the MustParser wrappers (they panic by design), FactSet.String/Set.String of package biscuit. Out-of-memory and stack depth are not panics a contract can see. Dependencies are trusted to satisfy their assumed contracts.",
    technique=T, ref="4/C10"),
  "C11": dict(
    text="Proof (producer/consumer rule): the goroutine bodies combine$1 and World.Run$1 are under contract with channel clauses (every sent value satisfies the channel invariant, nothing is sent after a final value, at most one verdict, channel closed on return); Rule.Apply and World.Run are proved against them, with a stranding obligation at every return (the producer is known to have finished, or the buffer covers what it may still send). World.Run's nil verdict is proved to be sent only when an iteration added nothing and the fact count is below the limit; limit plumbing: WithWorldOptions/NewVerifier/AuthorizerFor/Authorizer are proved to hand the caller's options to every world.",
@@ -67,7 +67,7 @@ CLAIMED = {
    technique=T, ref="4/C18"),
  "C19": dict(
    text="Proof (partial) by strict write frames instead of schedule exploration: authorizerFor, Append and Seal are proved to perform no write to memory that existed before the call (including in-place appends into spare capacity of shared slices), and SymbolTable.Clone is proved to own its capacity; without writes to shared locations no interleaving can race on them.",
-   note="Not yet under contract for this property: Authorize/Query, printing, GetBlockID, CreateBlock and builders, Serialize; sharing a parser.Parser is an assumption about participle. Assumed: library calls on shared read-only arguments are safe for concurrent use.",
+   note="Also proved with strict frames: Authorize and Query write only the authorizer's own working state (never the token, never the base state), GetBlockID, Serialize, RevocationIds, CreateBlock and all printing functions write nothing that existed before the call, the block builder writes only builder-owned memory. Sharing a parser.Parser is an assumption about participle. Assumed: library calls on shared read-only arguments are safe for concurrent use.",
    technique=T, ref="4/C19"),
  "C20": dict(
    text="Proof: with ed25519.GenerateKey's contract (error => nil keys; success => 32/64-byte keys with pub = pubOf(priv)), newBiscuit and Append are proved to return no token on error, never to reach Seed()/slicing with a nil key (panic obligations), and to store the seed whose public key they announce and sign.",
